@@ -483,12 +483,23 @@ func newTunnelWorld() *tunnelWorld { return newTunnelWorldTLS("") }
 
 // newTunnelWorldTLS: with tlsDir set, the proxy ports listen on TLS and the
 // nodes forward to each other over TLS (cert.pem/key.pem in tlsDir).
-func newTunnelWorldTLS(tlsDir string) *tunnelWorld {
-	var mutate func(i int, c *config.Config)
+func newTunnelWorldTLS(tlsDir string) *tunnelWorld { return newTunnelWorldCfg(tlsDir, 0) }
+
+// newTunnelWorldCfg: proxyTimeout > 0 sets proxy.timeout (tunnels are exempt
+// from it, however long they live).
+func newTunnelWorldCfg(tlsDir string, proxyTimeout time.Duration) *tunnelWorld {
+	mutate := func(i int, c *config.Config) {
+		if proxyTimeout > 0 {
+			c.Proxy.Timeout = proxyTimeout
+		}
+	}
 	var clientTLS *tls.Config
 	if tlsDir != "" {
 		cert, key := filepath.Join(tlsDir, "cert.pem"), filepath.Join(tlsDir, "key.pem")
 		mutate = func(i int, c *config.Config) {
+			if proxyTimeout > 0 {
+				c.Proxy.Timeout = proxyTimeout
+			}
 			c.Proxy.TLS.Cert, c.Proxy.TLS.Key = cert, key
 			c.Proxy.TLS.Client.RootCAs = cert
 		}
@@ -802,10 +813,42 @@ func init() {
 				if world == "tls" {
 					dir = tlsDir
 				}
-				lw := newTunnelWorldTLS(dir)
+				// proxy.timeout 2s: every tunnel here outlives it
+				lw := newTunnelWorldCfg(dir, 2*time.Second)
 				defer lw.close()
+				var extra [][2]string
+				var emu sync.Mutex
+				addExtra := func(f [2]string) { emu.Lock(); extra = append(extra, f); emu.Unlock() }
+				extraN := 0
+				var ewg sync.WaitGroup
+				if world == "plaintext" {
+					// raw handshakes on the TCP route whose Connection header is a token
+					// list, entering at the node that has to forward
+					for _, conn := range []string{"keep-alive, Upgrade", "Upgrade, keep-alive", "upgrade"} {
+						extraN++
+						ewg.Add(1)
+						go func(conn string) {
+							defer ewg.Done()
+							if msg := rawTunnelStaysOpen(lw.nodes[0].ProxyAddr(), "t1", conn, 5*time.Second); msg != "" {
+								addExtra([2]string{"long-lived-tunnel-broken", "handshake with Connection: " + conn + " through the forwarding node (proxy.timeout 2s): " + msg})
+							}
+						}(conn)
+					}
+					// the dialer writes and closes; the application behind the listener
+					// drains what is buffered only slowly: every byte still arrives,
+					// then end-of-stream
+					extraN++
+					ewg.Add(1)
+					go func() {
+						defer ewg.Done()
+						if msg := slowReaderAfterClose(lw); msg != "" {
+							addExtra([2]string{"tunnel-bytes-differ", msg})
+						}
+					}()
+				}
 				n, fails := lw.longLived(world, 6500*time.Millisecond)
-				llCh <- llRes{n, fails}
+				ewg.Wait()
+				llCh <- llRes{n + extraN, append(fails, extra...)}
 			}(world)
 		}
 		w := newTunnelWorld()
